@@ -4,6 +4,7 @@ import (
 	"fmt"
 	"go/token"
 	"go/types"
+	"sort"
 	"strings"
 
 	"golang.org/x/tools/go/ssa"
@@ -30,8 +31,10 @@ func init() {
 			{ID: "R04g", Floor: 1, Doc: "IsIdentity hands out the digest a multihash decoder produced (DecodedMultihash.Digest), never a fixed-offset slice of the raw multihash (the length prefix is a varint: 2 bytes only below 128)", Run: ruleR04g},
 			{ID: "R04h", Floor: 10, Doc: "option plumbing: wherever a repository function has a parameter named after a field of v2.Options and a caller passes a field of Options for it, it is that field (same-typed options swapped or the wrong line deleted compile and pass the suite)", Run: ruleR04h},
 			{ID: "R04i", Floor: 10, Doc: "every option constructor stores its own argument, unmodified, into the Options field it is named after (and nothing else)", Run: ruleR04i},
+			{ID: "R04j", Floor: 1, Doc: "options mean what the caller configured: a field of v2.Options is assigned only by an option constructor's closure or by ApplyOptions' defaults — no constructor or method overrides an option on its own copy afterwards", Run: ruleR04j},
 			{ID: "R04f", Floor: 3, Doc: "lookups answer only for a confirmed candidate and report not-found otherwise (= R07a)", Run: ruleR07a},
 			{ID: "R04e", Floor: 3, Doc: "oversize CID: ShouldPut's non-false answers behind cidLen <= max; put paths write only behind err==nil && should", Run: ruleR04e},
+			{ID: "R04k", Floor: 1, Doc: "a resumed store knows every block of the file: the rescan indexes each section it passes (= R12c)", Run: ruleR12c},
 		},
 	})
 }
@@ -946,4 +949,42 @@ func ruleR04i(c *Ctx, r *Report) {
 		}
 		r.Check(bad == "", key, c.Pos(fn.Pos()), "stores its argument into the field it is named after", bad)
 	}
+}
+
+func ruleR04j(c *Ctx, r *Report) {
+	n := 0
+	var bad []string
+	for _, fn := range c.RepoFuncs() {
+		eachInstr(fn, func(in ssa.Instruction) {
+			st, ok := in.(*ssa.Store)
+			if !ok {
+				return
+			}
+			fa, ok := st.Addr.(*ssa.FieldAddr)
+			if !ok || !isNamed(derefType(fa.X.Type()), modV2, "Options") {
+				return
+			}
+			n++
+			root := rootFuncOf(fn)
+			okSite := false
+			if o, isF := root.Object().(*types.Func); isF {
+				if funcIs(o, modV2, "", "ApplyOptions") {
+					okSite = true
+				}
+				sig := o.Type().(*types.Signature)
+				if sig.Results().Len() == 1 {
+					if nt := namedOf(sig.Results().At(0).Type()); nt != nil && nt.Obj().Pkg() != nil && nt.Obj().Pkg().Path() == modV2 && strings.HasSuffix(nt.Obj().Name(), "Option") {
+						okSite = fn.Parent() != nil // inside the returned closure
+					}
+				}
+			}
+			if !okSite {
+				fv := fieldVar(fa.X.Type(), fa.Field)
+				bad = append(bad, fmt.Sprintf("%s assigns Options.%s at %s", fnKey(fn), fv.Name(), c.Pos(st.Pos())))
+			}
+		})
+	}
+	sort.Strings(bad)
+	r.Check(len(bad) == 0, "options-assigned-only-by-options@repository", "-", fmt.Sprintf("%d assignments to Options fields, all in option constructors or ApplyOptions", n),
+		strings.Join(bad, "; ")+": the value the caller configured is silently replaced for part of the API (two readers of one archive then disagree)")
 }
